@@ -307,10 +307,11 @@ func init() {
 	registry["C08"].Units[0].Inject = actorOverlay
 
 	registry["C06"] = &Check{
-		Rule:        "trees of 2-8 actors (depth <= 4; handlers that panic on OnKill / on their own OnKilled), a set-up of 0-8 Watch / Unwatch / Subscribe / Unsubscribe / Loop-job operations, then 1-4 kills (poison or not, from outside or from an actor, through the spawn ref, a clone or a parsed ref, repeated on the same victim, with or without settling in between), spawns in the victim right before / after the kill, late watchers racing the termination; afterwards 5 virtual seconds pass and one event of every type is published. Oracle over the complete trace, the event stream and white-box tables: every descendant of a victim terminated; ActorKilledEvent of an actor after those of all its descendants; one ActorKilledEvent per life, none for survivors; parent and every registered watcher (Watched / Unwatched events before the termination) got exactly one OnKilled, nobody else any; FindActor fails; no event-stream entry; no delivery and no dead letter of events or scheduled messages after the termination; the parent can reuse the name. Non-trivial = a victim with descendants, a notified watcher or a repeated kill. Distinct = hash of the case. Unit window: the same parked termination chain as in C03 (see there) judged by C06: exactly one ActorKilledEvent per termination, parent and every watcher registered before the termination began notified exactly once (watchers that register inside the window: at most once), children reported before the parent, and as soon as the actor has been reported terminated (the parent has handled its OnKilled or the ActorKilledEvent is out) FindActor fails and the parent can reuse the name - inside the window, after the release and at quiescence.",
+		Rule:        "trees of 2-8 actors (depth <= 4; handlers that panic on OnKill / on their own OnKilled), a set-up of 0-8 Watch / Unwatch / Subscribe / Unsubscribe / Loop-job operations, then 1-4 kills (poison or not, from outside or from an actor, through the spawn ref, a clone or a parsed ref, repeated on the same victim, with or without settling in between), spawns in the victim right before / after the kill, late watchers racing the termination; afterwards 5 virtual seconds pass and one event of every type is published. Oracle over the complete trace, the event stream and white-box tables: every descendant of a victim terminated; ActorKilledEvent of an actor after those of all its descendants; one ActorKilledEvent per life, none for survivors; parent and every registered watcher (Watched / Unwatched events before the termination) got exactly one OnKilled, nobody else any; FindActor fails; no event-stream entry; no delivery and no dead letter of events or scheduled messages after the termination; the parent can reuse the name. Non-trivial = a victim with descendants, a notified watcher or a repeated kill. Distinct = hash of the case. Unit window: the same parked termination chain as in C03 (see there) judged by C06: exactly one ActorKilledEvent per termination, parent and every watcher registered before the termination began notified exactly once (watchers that register inside the window: at most once), children reported before the parent, and as soon as the actor has been reported terminated (the parent has handled its OnKilled or the ActorKilledEvent is out) FindActor fails and the parent can reuse the name - inside the window, after the release and at quiescence. Unit replace: a supervisor (top-level or nested) replaces its named child 1-3 times - in three cases of four inside ONE handler (kill, wait until FindActor fails, spawn the same name; the predecessor's OnKilled is still queued in the supervisor's mailbox when the successor is registered), otherwise in two settled steps - the child has 0-2 children of its own; then the supervisor or its parent is killed (poison or not). Oracle: every replacement succeeded, nothing at or below the killed actor is registered at quiescence, every life of the child terminated, the supervisor received one OnKilled per life, the child was reported before the supervisor. Non-trivial there = replaced inside one handler.",
 		Assumptions: []string{"racing parts (kills without settling, late watchers) sample Go-scheduler interleavings; the oracle holds on every interleaving"},
 		Units: []Unit{
 			{Name: "kill", Pkg: "c06", Run: "^TestC06KillSubtree$", QuickChecks: 6000, ThoroughChecks: 60000, ThoroughShards: 12, CaseFile: true, CrashOracle: "no-crash", Inject: actorOverlay},
+			{Name: "replace", Pkg: "c06", Run: "^TestC06ReplaceThenKill$", QuickChecks: 300, QuickShards: 2, ThoroughChecks: 3000, ThoroughShards: 8, CaseFile: true, CrashOracle: "no-crash", Inject: actorOverlay},
 			{Name: "storm", Pkg: "c06", Run: "^TestC06RespawnStorm$", QuickChecks: 60, QuickShards: 4, ThoroughChecks: 600, ThoroughShards: 8, CaseFile: true, CrashOracle: "no-crash", Inject: actorOverlay},
 			{Name: "window", Pkg: "cwin", Run: "^TestC06Window$", Env: map[string]string{"VERIF_PROPERTY": "C06"}, QuickChecks: 6000, ThoroughChecks: 60000, ThoroughShards: 12, CaseFile: true, CrashOracle: "no-crash", Inject: actorOverlay,
 				Windows: map[string][]string{"internal/actor/killed_handler.go": nil}},
